@@ -67,6 +67,49 @@ fn main() {
                 let b = wincut::real_format_env_block(env);
                 writeln!(out, "winenv {}", enc_units(b.into_iter().map(|c| c as u32))).unwrap();
             }
+            "splitpath" => {
+                // hook: the private tokenizer of posix.rs
+                use std::os::unix::ffi::{OsStrExt, OsStringExt};
+                let p = std::ffi::OsString::from_vec(dec_bytes(rest));
+                let parts = subprocess::verif::split_path(&p);
+                let enc: Vec<String> = parts.iter().map(|x| enc_bytes(x.as_bytes())).collect();
+                writeln!(out, "splitpath {}", if enc.is_empty() { "none".to_string() } else { enc.join(",") }).unwrap();
+            }
+            "prealloc" => {
+                use std::os::unix::ffi::OsStringExt;
+                let (c, p) = rest.split_once(' ').unwrap();
+                let cmd = std::ffi::OsString::from_vec(dec_bytes(c));
+                let path = if p == "none" { None } else { Some(std::ffi::OsString::from_vec(dec_bytes(p))) };
+                let (cap, longest) = subprocess::verif::prealloc_exe(&cmd, path.as_deref());
+                writeln!(out, "prealloc {} {}", cap, longest).unwrap();
+            }
+            "fmtenv" => {
+                use std::os::unix::ffi::{OsStrExt, OsStringExt};
+                let env: Vec<(std::ffi::OsString, std::ffi::OsString)> = if rest == "none" {
+                    vec![]
+                } else {
+                    rest.split(',')
+                        .map(|kv| {
+                            let (k, v) = kv.split_once('=').unwrap();
+                            (std::ffi::OsString::from_vec(dec_bytes(k)), std::ffi::OsString::from_vec(dec_bytes(v)))
+                        })
+                        .collect()
+                };
+                let r = subprocess::verif::format_env(&env);
+                let enc: Vec<String> = r.iter().map(|x| enc_bytes(x.as_bytes())).collect();
+                writeln!(out, "fmtenv {}", if enc.is_empty() { "none".to_string() } else { enc.join(",") }).unwrap();
+            }
+            "decode" => {
+                let st: u32 = rest.parse().unwrap();
+                let r = subprocess::verif::decode_exit_status(st as i32);
+                let s = match r {
+                    subprocess::ExitStatus::Exited(c) => format!("exited {}", c),
+                    subprocess::ExitStatus::Signaled(s) => format!("signaled {}", s),
+                    subprocess::ExitStatus::Other(o) => format!("other {}", o as u32),
+                    subprocess::ExitStatus::Undetermined => "undetermined".to_string(),
+                };
+                writeln!(out, "decode {}", s).unwrap();
+            }
             _ => panic!("unknown case kind {}", kind),
         }
     }
